@@ -1020,12 +1020,19 @@ std::string sqf::parser::preprocessor::impl_default::instance::parse_file(::sqf:
             {
                 if (c == '#' && was_new_line)
                 {
+                    auto line_before = fileinfo.line;
                     auto res = parse_ppinstruction(runtime, fileinfo);
                     if (m_errflag)
                     {
                         return res;
                     }
                     sstream << res;
+                    // a directive continued over several source lines (backslash-newline) yields one line of output:
+                    // pad with the swallowed newlines so that everything after it keeps its line number
+                    for (auto l = line_before + 1; l < fileinfo.line; l++)
+                    {
+                        sstream << "\n";
+                    }
                     break;
                 }
             }
